@@ -18,6 +18,17 @@ def build_scripts(ctx, scale):
         b = ctx.rng.bytes(ctx.rng.below(80)); lines.append('el.rand %s' % (b.hex() if b else '-'))
         if i % 2: lines.append('af.rand %s' % (b.hex() if b else '-'))
     pool = Pool('ark', ctx.rng.fork('pool'), n_rand=3 * scale)
+    # deserialisers in EVERY mode (compressed / uncompressed, validated / unvalidated): 32-byte encodings, and 64-byte x||y of curve points
+    # inside and outside the group, of off-curve pairs, of the origin
+    blobs = [hexb(s) for s in [0, 8, Q - 1] + pool.encodable[:3]]
+    for y in list(range(2, 8 + 4 * scale)) + [0, 1, Q - 1]:
+        xx = (1 - y * y) * pow((Q - 1 - gen.D * y * y) % Q, -1, Q) % Q if (Q - 1 - gen.D * y * y) % Q else 0
+        x = pyref.sqrt(xx)
+        if x is None: x = y + 1          # off-curve pair
+        for xs in (x, (Q - x) % Q): blobs.append(hexb(xs) + hexb(y))
+    blobs += [hexb(0) + hexb(0), hexb(5) + hexb(7)]
+    for bl in blobs:
+        for op in ('el.deser', 'af.deser', 'el.deser_uncompressed', 'af.deser_uncompressed', 'el.deser_unchecked', 'af.deser_unchecked'): lines.append('%s %s' % (op, bl))
     for c in pool.all[:20 * scale]:
         lines += ['el.to_affine %s' % E(c), 'el.into_affine %s' % E(c), 'af.to_element %s' % Af(pyref.aff(c)), 'af.into_group %s' % Af(pyref.aff(c)), 'af.clear_cofactor %s' % Af(pyref.aff(c)),
                   'af.mul_by_cofactor_to_group %s' % Af(pyref.aff(c))]
@@ -32,7 +43,7 @@ def build_scripts(ctx, scale):
 def is_valid_out(o):
     """does a harness output denote valid element(s)?  Returns (ok, description)"""
     t = o.split()
-    if not t or t[0] in ('NONE',): return True, ''
+    if not t or t[0] in ('NONE', 'ERR'): return True, ''          # nothing was handed out
     if t[0] in ('SOME', 'OK'): t = t[1:]
     for tok in t:
         for e in tok.split(';'):
@@ -51,7 +62,8 @@ def search(ctx, scale, hints):
         l2 = []; idx = []
         for i, (l, o) in enumerate(zip(lines, out)):
             ok, why = is_valid_out(o)
-            if o == 'PANIC' or not ok:
+            unsupported_mode = l.split()[0].endswith(('_uncompressed', '_unchecked'))   # unimplemented!() on the pinned tree: hands out nothing
+            if (o == 'PANIC' and not unsupported_mode) or (o != 'PANIC' and not ok):
                 fails.append(('%s hands out %s (build %s)' % (l[:90], why or o, b), {'build': b, 'script': [l], 'output': [o]}, {'class': 'constructor', 'op': l.split()[0]}))
     return fails
 
